@@ -554,3 +554,89 @@ V('c14-source-read-unrecorded-helper', 'C14', 'C14.R5', (A, '''    fn exists(&se
     }
 
     fn get_cached_entry_inner'''))
+
+# ---- C05
+V('c05-read-unrecorded', 'C05', 'C05.R1', (A, '''        #[cfg(feature = "hot-reloading")]
+        if let Some(reloader) = self.reloader() {
+            records::add_file_record(reloader, id, ext);
+        }
+        self.get_source().read(id, ext)''', '''        let res = self.get_source().read(id, ext);
+        #[cfg(feature = "hot-reloading")]
+        if let (Some(reloader), true) = (self.reloader(), res.is_ok()) {
+            records::add_file_record(reloader, id, ext);
+        }
+        res'''))
+V('c05-dir-record-dropped', 'C05', 'C05.R1', (A, '''        #[cfg(feature = "hot-reloading")]
+        if let Some(reloader) = self.reloader() {
+            records::add_dir_record(reloader, id);
+        }
+        self.get_source().read_dir(id, f)''', '''        self.get_source().read_dir(id, f)'''))
+V('c05-anysource-bypass', 'C05', 'C05.R1', (A, '''    fn read(&self, id: &str, ext: &str) -> io::Result<crate::source::FileContent> {
+        self.cache.read(id, ext)
+    }''', '''    fn read(&self, id: &str, ext: &str) -> io::Result<crate::source::FileContent> {
+        if ext.is_empty() {
+            return self.cache.read_unrecorded(id, ext);
+        }
+        self.cache.read(id, ext)
+    }'''), (A, '''    fn read_dir(&self, id: &str, f: &mut dyn FnMut(DirEntry)) -> io::Result<()>;
+
+    fn exists(&self, entry: DirEntry) -> bool;
+
+    fn get_cached_entry_inner''', '''    fn read_dir(&self, id: &str, f: &mut dyn FnMut(DirEntry)) -> io::Result<()>;
+
+    fn read_unrecorded(&self, id: &str, ext: &str) -> io::Result<crate::source::FileContent>;
+
+    fn exists(&self, entry: DirEntry) -> bool;
+
+    fn get_cached_entry_inner'''), (A, '''    fn exists(&self, entry: DirEntry) -> bool {
+        self.get_source().exists(entry)
+    }
+
+    fn get_cached_entry_inner''', '''    fn read_unrecorded(&self, id: &str, ext: &str) -> io::Result<crate::source::FileContent> {
+        self.get_source().read(id, ext)
+    }
+
+    fn exists(&self, entry: DirEntry) -> bool {
+        self.get_source().exists(entry)
+    }
+
+    fn get_cached_entry_inner'''))
+V('c05-register-empty-deps', 'C05', 'C05.R2', ('src/asset.rs', '''                reloader.add_asset(id, deps, typ);''', '''                drop(deps);
+                reloader.add_asset(id, crate::hot_reloading::Dependencies::empty(), typ);'''))
+V('c05-no-rev', 'C05', 'C05.R3', (HD, '''        self.0.into_iter().rev()''', '''        self.0.into_iter()'''))
+V('c05-preorder-push', 'C05', 'C05.R3', (HD, '''        for rdep in node.rdeps.iter() {
+            self.visit(sort_data, rdep.as_borrowed());
+        }
+
+        if let BorrowedDependency::Asset(key) = key {
+            sort_data.list.push(key.clone());
+        }''', '''        if let BorrowedDependency::Asset(key) = key {
+            sort_data.list.push(key.clone());
+        }
+
+        for rdep in node.rdeps.iter() {
+            self.visit(sort_data, rdep.as_borrowed());
+        }'''))
+V('c05-stale-rdeps-kept', 'C05', 'C05.R4', (HD, '''                let removed: Vec<_> = entry.deps.difference(&deps).cloned().collect();''', '''                let removed: Vec<_> = deps.difference(&entry.deps).cloned().collect();'''))
+V('c05-no-reverse-edge', 'C05', 'C05.R4', (HD, '''            let entry = self.0.entry(key.clone()).or_default();
+            entry.rdeps.insert(asset_key.clone());''', '''            let _entry = self.0.entry(key.clone()).or_default();'''))
+V('c05-events-first', 'C05', 'C05.R5', (H, '''        let ready = select.ready();
+
+        loop {''', '''        let ready = select.ready();
+
+        if ready == 1 {
+            if let Ok(msg) = events.try_recv() {
+                cache.handle_events(msg);
+            }
+        }
+
+        loop {'''))
+V('c05-borrowed-variants-reordered', 'C05', 'C05.R6', (HRc, '''pub(crate) enum BorrowedDependency<'a> {
+    File(&'a SharedString, &'a SharedString),
+    Directory(&'a SharedString),
+    Asset(&'a OwnedKey),
+}''', '''pub(crate) enum BorrowedDependency<'a> {
+    Directory(&'a SharedString),
+    File(&'a SharedString, &'a SharedString),
+    Asset(&'a OwnedKey),
+}'''))
